@@ -3,6 +3,9 @@
 #include <sys/mman.h>
 #include <sys/stat.h>
 
+int __llvm_profile_write_file(void) __attribute__((weak));
+void vf_cov_flush(void) { if(__llvm_profile_write_file) __llvm_profile_write_file(); }
+
 void die(const char *fmt, ...) {
     va_list ap;
     va_start(ap, fmt);
